@@ -164,6 +164,12 @@ def checkO (c : EncCase) (sizeCap : Option Nat) : Option String :=
       | .ascii _ [b] :: .c40 text _ false :: _ =>
         if (DM.Spec.Build.c40Vals text b).length ≥ 2 then "[shifted-last-char-as-ascii-tail]" else ""
       | _ => ""
+    -- class of the witness: it leaves a mode and latches straight back into the same mode to
+    -- realign its groups (the planner's add_switches never re-enters the current mode)
+    let kind : DM.Spec.Build.Item → Nat
+      | .ascii _ _ => 0 | .c40 t _ _ => if t then 2 else 1 | .x12 _ _ => 3 | .edifact _ _ => 4 | .base256 _ _ => 5
+    let ks := a.script.items.map kind
+    let cls := if cls == "" ∧ (ks.zip ks.tail).any (fun (x, y) => x ≠ 0 ∧ x == y) then "[relatch-same-mode]" else cls
     match sizeCap with
     | some cap => if cap > wcap then some s!"{cls}needs-{cap}-but-{wcap}-suffices:witness:{hex cw}" else none
     | none => some s!"{cls}refused-but-{wcap}-suffices:witness:{hex cw}"
